@@ -6,6 +6,7 @@ import (
 	"fmt"
 	"reflect"
 	"sync"
+	"sync/atomic"
 )
 
 // Pool tracker for the verification harness (/verif). Every acquire from and
@@ -109,4 +110,62 @@ func VerifPoolTrackerStop() (gets, puts [6]int, violations, log []string) {
 func VerifPoolOutstanding() (out [6]int) {
 	// kinds are not stored per object; callers use gets-puts from Stop instead.
 	return out
+}
+
+// Quiescence ticks: counters the harness polls to know that the three server
+// loops have finished with everything it has sent, instead of sleeping.
+const (
+	verifTickReadLoop    = iota // the read loop is about to read the next frame
+	verifTickForwarded          // a frame was handed to the stream loop
+	verifTickStreamLoop         // the stream loop is about to wait for its next event
+	verifTickHandlerDone        // a handler goroutine reported back
+	verifTickQueued             // a frame was queued for the write loop
+	verifTickWritten            // the write loop has written (and released) a frame
+	verifTickCount
+)
+
+var verifTicks [verifTickCount]int64
+
+func verifTick(which int) { atomic.AddInt64(&verifTicks[which], 1) }
+
+// VerifTicks returns a snapshot of the counters.
+func VerifTicks() (out [6]int64) {
+	for i := range out {
+		out[i] = atomic.LoadInt64(&verifTicks[i])
+	}
+	return out
+}
+
+// VerifTicksReset zeroes the counters (one connection at a time).
+func VerifTicksReset() {
+	for i := range verifTicks {
+		atomic.StoreInt64(&verifTicks[i], 0)
+	}
+	atomic.StoreInt64(&verifGaugeMax[0], 0)
+	atomic.StoreInt64(&verifGaugeMax[1], 0)
+	atomic.StoreInt64(&verifGaugeMax[2], 0)
+}
+
+// Gauges published by the stream loop at every iteration: current values and
+// the maxima since the last reset.
+var verifGaugeCur, verifGaugeMax [3]int64
+
+func verifGauge(strms, open, closedRing int) {
+	vals := [3]int64{int64(strms), int64(open), int64(closedRing)}
+	for i, v := range vals {
+		atomic.StoreInt64(&verifGaugeCur[i], v)
+		if v > atomic.LoadInt64(&verifGaugeMax[i]) {
+			atomic.StoreInt64(&verifGaugeMax[i], v)
+		}
+	}
+}
+
+// VerifGauges returns (stream table length, open stream slots, closed ring
+// length): current values and maxima since VerifTicksReset.
+func VerifGauges() (cur, max [3]int64) {
+	for i := range cur {
+		cur[i] = atomic.LoadInt64(&verifGaugeCur[i])
+		max[i] = atomic.LoadInt64(&verifGaugeMax[i])
+	}
+	return cur, max
 }
